@@ -18,6 +18,13 @@ def gmul (a b : UInt8) : UInt8 := Id.run do
     x := xtime x; y := y >>> 1
   return r
 
+def mul2 (a : UInt8) : UInt8 := xtime a
+def mul3 (a : UInt8) : UInt8 := xtime a ^^^ a
+def mul9 (a : UInt8) : UInt8 := xtime (xtime (xtime a)) ^^^ a
+def mul11 (a : UInt8) : UInt8 := xtime (xtime (xtime a)) ^^^ xtime a ^^^ a
+def mul13 (a : UInt8) : UInt8 := xtime (xtime (xtime a)) ^^^ xtime (xtime a) ^^^ a
+def mul14 (a : UInt8) : UInt8 := xtime (xtime (xtime a)) ^^^ xtime (xtime a) ^^^ xtime a
+
 /-- key expansion: `4 * (Nr + 1)` words of 4 bytes, as a flat byte array -/
 def expandKey (key : Bytes) : Array UInt8 := Id.run do
   let nk := key.length / 4
@@ -48,32 +55,54 @@ def invShiftRows (s : Array UInt8) : Array UInt8 :=
 def mixColumns (s : Array UInt8) : Array UInt8 :=
   (Array.range 16).map fun i =>
     let c := (i / 4) * 4; let r := i % 4
-    gmul 2 s[c + r]! ^^^ gmul 3 s[c + (r + 1) % 4]! ^^^ s[c + (r + 2) % 4]! ^^^ s[c + (r + 3) % 4]!
+    mul2 s[c + r]! ^^^ mul3 s[c + (r + 1) % 4]! ^^^ s[c + (r + 2) % 4]! ^^^ s[c + (r + 3) % 4]!
 def invMixColumns (s : Array UInt8) : Array UInt8 :=
   (Array.range 16).map fun i =>
     let c := (i / 4) * 4; let r := i % 4
-    gmul 14 s[c + r]! ^^^ gmul 11 s[c + (r + 1) % 4]! ^^^ gmul 13 s[c + (r + 2) % 4]! ^^^ gmul 9 s[c + (r + 3) % 4]!
+    mul14 s[c + r]! ^^^ mul11 s[c + (r + 1) % 4]! ^^^ mul13 s[c + (r + 2) % 4]! ^^^ mul9 s[c + (r + 3) % 4]!
 
-/-- AES block encryption; key of 16 or 32 bytes, block of 16 bytes (anything else: `[]`). -/
-def aesEncBlock (key blk : Bytes) : Bytes :=
-  if (key.length ≠ 16 ∧ key.length ≠ 32) ∨ blk.length ≠ 16 then [] else Id.run do
-  let w := expandKey key
-  let nr := key.length / 4 + 6
+def sbox2 : Array UInt8 := sbox.map mul2
+def sbox3 : Array UInt8 := sbox.map mul3
+
+/-- one full round (SubBytes, ShiftRows, MixColumns, AddRoundKey) computed byte by byte: output byte
+`i` = row `i % 4` of column `i / 4` takes row `r'` from column `(i / 4 + r') % 4` of the input -/
+def encRound (s w : Array UInt8) (r : Nat) : Array UInt8 :=
+  Array.ofFn (n := 16) fun i =>
+    let c := i.val / 4; let row := i.val % 4
+    let a := s[((c + row) % 4) * 4 + row]!
+    let b := s[((c + (row + 1) % 4) % 4) * 4 + (row + 1) % 4]!
+    let d := s[((c + (row + 2) % 4) % 4) * 4 + (row + 2) % 4]!
+    let e := s[((c + (row + 3) % 4) % 4) * 4 + (row + 3) % 4]!
+    sbox2[a.toNat]! ^^^ sbox3[b.toNat]! ^^^ sbox[d.toNat]! ^^^ sbox[e.toNat]! ^^^ w[16 * r + i.val]!
+
+def encLast (s w : Array UInt8) (r : Nat) : Array UInt8 :=
+  Array.ofFn (n := 16) fun i =>
+    let c := i.val / 4; let row := i.val % 4
+    sbox[(s[((c + row) % 4) * 4 + row]!).toNat]! ^^^ w[16 * r + i.val]!
+
+/-- encryption of one block under an expanded key `w` with `nr` rounds -/
+def encWith (w : Array UInt8) (nr : Nat) (blk : Bytes) : Bytes :=
+  if blk.length ≠ 16 then [] else Id.run do
   let mut s := addRoundKey blk.toArray w 0
   for r in [1:nr] do
-    s := addRoundKey (mixColumns (shiftRows (s.map fun b => sbox[b.toNat]!))) w r
-  s := addRoundKey (shiftRows (s.map fun b => sbox[b.toNat]!)) w nr
-  return s.toList
+    s := encRound s w r
+  return (encLast s w nr).toList
 
-def aesDecBlock (key blk : Bytes) : Bytes :=
-  if (key.length ≠ 16 ∧ key.length ≠ 32) ∨ blk.length ≠ 16 then [] else Id.run do
-  let w := expandKey key
-  let nr := key.length / 4 + 6
+def decWith (w : Array UInt8) (nr : Nat) (blk : Bytes) : Bytes :=
+  if blk.length ≠ 16 then [] else Id.run do
   let mut s := addRoundKey blk.toArray w nr
   for k in [1:nr] do
     let r := nr - k
     s := invMixColumns (addRoundKey ((invShiftRows s).map fun b => isbox[b.toNat]!) w r)
   s := addRoundKey ((invShiftRows s).map fun b => isbox[b.toNat]!) w 0
   return s.toList
+
+/-- AES block encryption; key of 16 or 32 bytes, block of 16 bytes (anything else: `[]`).
+`aesEncBlock key` expands the key once and returns the block function. -/
+def aesEncBlock (key : Bytes) : Bytes → Bytes :=
+  if key.length ≠ 16 ∧ key.length ≠ 32 then (fun _ => []) else encWith (expandKey key) (key.length / 4 + 6)
+
+def aesDecBlock (key : Bytes) : Bytes → Bytes :=
+  if key.length ≠ 16 ∧ key.length ≠ 32 then (fun _ => []) else decWith (expandKey key) (key.length / 4 + 6)
 
 end Lopdf.Spec
